@@ -261,6 +261,18 @@ func cmdCheck(args []string) int {
 			todo = append(todo, obRef{j, k})
 		}
 	}
+	notClaimedPre := loadNotClaimed()
+	{
+		var keep []obRef
+		for _, r := range todo {
+			ob := r.j.vc.Obs[r.k]
+			if notClaimedPre[ob.Name] {
+				ob.Result = "not-claimed" // not solved at all: neither proved nor reported
+			}
+			keep = append(keep, r)
+		}
+		todo = keep
+	}
 	var mu sync.Mutex
 	perBackend := map[string]map[string]int{}
 	solverSecs := map[string]float64{}
@@ -272,6 +284,9 @@ func cmdCheck(args []string) int {
 		go func(r obRef) {
 			defer wg.Done()
 			defer func() { <-sem }()
+			if r.j.vc.Obs[r.k].Result == "not-claimed" {
+				return
+			}
 			res, per := discharge(r.j.vc, r.k, to, thorough)
 			ob := r.j.vc.Obs[r.k]
 			mu.Lock()
